@@ -380,8 +380,23 @@ def replay(ctx, rp):
 
 
 MANIFEST = {
-    "text": "in progress",
-    "note": "in progress",
+    "text": "Property oracle on the real code: at reachable states (every prefix of recorded library proofs, states of perturbed/random edit "
+            "sequences), for gap and fact selections (<=3 facts), every suggestion of search_method is applied to a copy with the declared "
+            "parameters supplied type-directedly: it must succeed or raise ParameterQueryException naming parameters; on success the newly open "
+            "goals are compared with the advertised _goal list (each advertised goal not left open must be provable by an earlier visible line "
+            "or trivially), a solving suggestion leaves none, an advertised _fact appears as a new non-gap line and the state re-checks. Lean "
+            "(model of apply_tactic shared with C13): open_goals_subset_advertised_partial, solving_shape_leaves_no_new_gap, "
+            "forward_fact_opens_no_gap_partial. Search bodies are not modelled.",
+    "note": "Trusted: Lean kernel (propext/Classical.choice/Quot.sound), harness generators and parameter guesses, the reading of `_goal`/`_fact` "
+            "as what a suggestion advertises (method.output_hint), holpy's checker for 'proved'. A failure after the harness supplied parameters "
+            "that the method asked for is counted but not reported (the guess may be at fault).",
     "design_ref": "DESIGN.md 4/C14",
 }
-FINDINGS = []
+FINDINGS = [
+    {"status": "fixed", "key": "fails-outright:induction:IndexError:list_index_out_of", "commit": "fixes/C14-1.patch",
+     "what": "induction suggested for a goal that is an implication (nat.add_cancel_left after revert_intro: x + y = x + z --> y = z, "
+             "nat_induct on x) failed with IndexError in apply_theorem: var_induct passed the goal's own assumption as an extra case"},
+    {"status": "fixed", "key": "advertised-goal-vanished:apply_backward_step", "commit": "fixes/C14-2.patch",
+     "what": "apply_tactic's trivial-closing loop revisited a gap that replace_id had removed and overwrote the next gap "
+             "(set.member_singleton, goal 0.3.1, fact 0.1, disjE: advertised `y Mem {} --> y = x` vanished)"},
+]
